@@ -1,6 +1,7 @@
 """C07 driver assignment, group misc: picture pack/unpack/convert kernels, motion estimation SAD kernels, FFT, palette, others."""
+import re
 
-SOURCES = ["kern_drv_misc.c", "kern_drv_misc_sad.c", "kern_drv_misc_oth.c"]
+SOURCES = ["kern_drv_misc.c", "kern_drv_misc_sad.c", "kern_drv_misc_oth.c", "kern_drv_misc_fp.c"]
 
 # dispatch pointer name -> driver
 BY_PTR = {
@@ -45,11 +46,22 @@ BY_PTR = {
 # driver argument k->a
 A_BY_PTR = {"svt_av1_apply_temporal_filter_planewise_hbd": 1}
 
-DRIVERS = sorted(set(BY_PTR.values()))
+DRIVERS = sorted(set(BY_PTR.values())) + ["misc_fft", "misc_calc_indices", "misc_kmeans"]
 
 
 def classify(e, w, h):
-    d = BY_PTR.get(e["ptr"])
+    n = e["ptr"]
+    # kern_drv_misc_fp.c
+    m = re.fullmatch(r"svt_aom_(i?)fft(\d+)x(\d+)_float", n)
+    if m:
+        return ("misc_fft", int(m.group(2)), int(m.group(3)), 1 if m.group(1) else 0, 0)  # a: 1 = inverse
+    m = re.fullmatch(r"svt_av1_calc_indices_dim([12])", n)
+    if m:
+        return ("misc_calc_indices", 0, 0, int(m.group(1)), 0)  # a: dimension
+    m = re.fullmatch(r"svt_av1_k_means_dim([12])", n)
+    if m:
+        return ("misc_kmeans", 0, 0, int(m.group(1)), 0)  # a: dimension
+    d = BY_PTR.get(n)
     if d is None:
         return None
     return (d, w, h, A_BY_PTR.get(e["ptr"], 0), 0)
